@@ -28,6 +28,7 @@ type Exec struct {
 	maxInline  int
 	useGInv    bool
 	lockCheck  bool
+	freshRefs  map[string]bool // references allocated while generating the current VC
 	fieldOf    map[string][2]string
 	inFieldInv bool
 }
@@ -595,7 +596,10 @@ func (fr *Frame) enterLoop(li *loopInfo, preds []*ssa.BasicBlock, conds []string
 			}
 			env := fr.loopEnv(li, phiVals, stp)
 			for k, inv := range spec.Invariants {
-				g := ex.trBool(inv.Expr, env)
+				g, okInv := ex.trInvariant(inv, env)
+				if !okInv {
+					continue
+				}
 				label := inv.Label
 				if label == "" {
 					label = fmt.Sprint(k)
@@ -697,7 +701,9 @@ func (fr *Frame) enterLoop(li *loopInfo, preds []*ssa.BasicBlock, conds []string
 	if spec != nil {
 		env := fr.loopEnv(li, phiVals, fr.cur)
 		for _, inv := range spec.Invariants {
-			vc.assume(imp(fr.curReach, ex.trBool(inv.Expr, env)))
+			if g, okInv := ex.trInvariant(inv, env); okInv {
+				vc.assume(imp(fr.curReach, g))
+			}
 		}
 	}
 	li.headSt = fr.cur.Clone()
@@ -784,7 +790,10 @@ func (fr *Frame) checkBackEdge(from *ssa.BasicBlock, li *loopInfo, cond string) 
 	}
 	env := fr.loopEnv(li, phiVals, fr.cur)
 	for k, inv := range spec.Invariants {
-		g := ex.trBool(inv.Expr, env)
+		g, okInv := ex.trInvariant(inv, env)
+		if !okInv {
+			continue
+		}
 		label := inv.Label
 		if label == "" {
 			label = fmt.Sprint(k)
@@ -858,4 +867,24 @@ func firstPos(b *ssa.BasicBlock) token.Pos {
 		}
 	}
 	return token.NoPos
+}
+
+// trInvariant translates a loop invariant. In a safety sweep an invariant that names a local which no longer
+// exists (the loop was rewritten) is dropped with a note instead of stopping the whole function: the safety
+// obligations that needed it then fail by name, which is the useful report.
+func (ex *Exec) trInvariant(inv Clause, env *Env) (g string, ok bool) {
+	if !ex.safety {
+		return ex.trBool(inv.Expr, env), true
+	}
+	defer func() {
+		if r := recover(); r != nil {
+			if se, isSpec := r.(specErr); isSpec {
+				ex.vc.note("loop invariant dropped in the safety sweep (" + se.msg + "): " + inv.Src)
+				g, ok = "", false
+				return
+			}
+			panic(r)
+		}
+	}()
+	return ex.trBool(inv.Expr, env), true
 }
